@@ -47,7 +47,7 @@ MAXSZ = dict(word=4, abs=6, jmp=6, bra=4, bsr=4, bsrx=4, bcc=4, sbra=2, equ=4)
 
 
 def budget(tier):
-    return dict(examples=5000 if tier == "quick" else 120000, shards=16)
+    return dict(examples=10000 if tier == "quick" else 120000, shards=16)
 
 
 @composite
